@@ -111,6 +111,24 @@ func Render(c Case, perm int64) (map[string]string, error) {
 			b2.WriteString(strings.Join(rs, "\n") + "\n==\n")
 		}
 		out["plan-"+name] = b2.String()
+		// the same change set planned a second time (what `schema apply` does: once to show the plan, once to apply it)
+		again, err := planner(c.Dialect).PlanChanges(context.Background(), "p", changes, func(o *migrate.PlanOptions) {
+			o.Mode = migrate.PlanMode(c.Mode)
+			o.SchemaQualifier = new(string)
+			o.Indent = "  "
+		})
+		if err != nil {
+			return nil, fmt.Errorf("%s: planning the same change set a second time fails: %v", name, err)
+		}
+		var b3 strings.Builder
+		for _, ch := range again.Changes {
+			b3.WriteString(ch.Cmd + "\n--\n")
+			rs, _ := ch.ReverseStmts()
+			b3.WriteString(strings.Join(rs, "\n") + "\n==\n")
+		}
+		if b3.String() != b2.String() {
+			return nil, fmt.Errorf("%s (%s): planning the same change set a second time gives different statements (the planner changed its input)\n first:\n%s\n second:\n%s", c.Dialect, name, b2.String(), b3.String())
+		}
 		plan.Version, plan.Name = fmt.Sprintf("%d", 100+i), name
 		f, err := migrate.DefaultFormatter.FormatFile(plan)
 		if err != nil {
